@@ -86,6 +86,26 @@ function projects() {
       "a.ts": "export const f1 = (x: number) => x;\nexport const f2 = class {};\nexport const f3 = new Date();\nexport const ok = 1;\nexport const f4 = Symbol();",
     },
   });
+  // a barrel that re-exports with a source: the names land in a different export table
+  out.push({
+    name: "typeof-namespace-barrel-with-several-unsupported-reexports",
+    files: {
+      "entry.ts": 'import * as ns from "./barrel";\nexport const Parsers = parse.buildParsers<{ A: typeof ns }>();',
+      "barrel.ts": 'export { alpha, beta, gamma, delta, fine } from "./values";\nexport { other1, other2 } from "./values2";',
+      "values.ts": "declare function foo(): number;\nclass Bar {}\nexport const alpha = foo();\nexport const beta = new Bar();\nexport const gamma = Symbol();\nexport const delta = (x: number) => x;\nexport const fine = 1;",
+      "values2.ts": "export const other1 = new Map();\nexport const other2 = /re/;",
+    },
+  });
+  out.push({
+    name: "typeof-namespace-barrel-ok",
+    files: {
+      "entry.ts": 'import * as ns from "./barrel";\nexport const Parsers = parse.buildParsers<{ A: typeof ns, B: typeof ns.b }>();',
+      "barrel.ts": 'export { a, b, c } from "./values";\nexport { d as dd, e } from "./values2";\nexport * from "./values3";',
+      "values.ts": 'export const a = 1;\nexport const b = { x: "s" } as const;\nexport const c = "lit";',
+      "values2.ts": "export const d = true;\nexport const e = null;",
+      "values3.ts": "export const f = [1, 2] as const;\nexport const g = { h: 1 };",
+    },
+  });
   out.push({
     name: "typeof-namespace-ok",
     files: {
@@ -169,7 +189,7 @@ export async function run() {
     coverage: {
       evaluations: stats.runs,
       distinct_nontrivial: Object.keys(distinctPerProject).length,
-      rule: "11 multi-file projects (C09 layouts in 5 import styles, 14 interdependent declarations referenced in scrambled order, several independent errors, typeof of a namespace with several unsupported exports, export-star aggregation and conflict) × pre-registration orders (" + (TIER === "thorough" ? "all n! orders of <=4 files" : "a sixth of the n! orders") + " + purely lazy + dependencies-only in both orders) × fresh OS processes × std HashMap seeds owned through an LD_PRELOAD getrandom shim (" + seeds.length + " seeds on the lazy order, 2 per other order, plus one run with the system's own randomness); oracle: all runs of one project give byte-identical code and identical serialised diagnostics (both entry points). distinct_nontrivial = number of projects",
+      rule: "13 multi-file projects (C09 layouts in 5 import styles, 14 interdependent declarations referenced in scrambled order, several independent errors, typeof of a namespace with several unsupported exports, export-star aggregation and conflict) × pre-registration orders (" + (TIER === "thorough" ? "all n! orders of <=4 files" : "a sixth of the n! orders") + " + purely lazy + dependencies-only in both orders) × fresh OS processes × std HashMap seeds owned through an LD_PRELOAD getrandom shim (" + seeds.length + " seeds on the lazy order, 2 per other order, plus one run with the system's own randomness); oracle: all runs of one project give byte-identical code and identical serialised diagnostics (both entry points). distinct_nontrivial = number of projects",
       samples,
       exhaustive: false,
       projects: stats.projects,
